@@ -101,6 +101,10 @@ func init() {
 	core.Register("rowdec", func(args []string) string {
 		return showRow(pgdump.DecodeTuple(mkTuple(args[1], args[2]), parseCols(args[0])))
 	})
+	// rowraw: same call, hostile inputs (spec silent)
+	core.Register("rowraw", func(args []string) string {
+		return showRow(pgdump.DecodeTuple(mkTuple(args[1], args[2]), parseCols(args[0])))
+	})
 	// rowexh: one argument = batch of "cols|bitmap|data" joined by ";"
 	core.Register("rowexh", func(args []string) string {
 		items := strings.Split(args[0], ";")
@@ -119,8 +123,18 @@ func init() {
 	core.Register("rowviews", func(args []string) string {
 		return views(parseCols(args[0]), unhex(args[1]))
 	})
+	core.Register("rowmasks", func(args []string) string {
+		return views(parseCols(args[0]), unhex(args[1]))
+	})
 	// varlena: args = data  →  ReadVarlena
 	core.Register("varlena", func(args []string) string {
+		v, n := pgdump.ReadVarlena(unhex(args[0]))
+		if v == nil {
+			return fmt.Sprintf("~|%d", n)
+		}
+		return fmt.Sprintf("b%s|%d", hx(v), n)
+	})
+	core.Register("varlenaraw", func(args []string) string {
 		v, n := pgdump.ReadVarlena(unhex(args[0]))
 		if v == nil {
 			return fmt.Sprintf("~|%d", n)
